@@ -317,6 +317,13 @@ pub fn shadow(cfg: &SPDCConfig) -> Value {
         }
       }
       AutoCalcParam::Param(period_um) => {
+        // does the implementation reject this explicit period before anything else (0 / non-finite)?  Observed through
+        // the public one-shot helper, not assumed.
+        let pre = outcome(|| cfg.periodic_poling.clone().try_as_periodic_poling(&signal, &pump, &cs0));
+        if pre.0 == "err" && pre.1.starts_with("Poling period must") {
+          steps.push(step("period_check", &(pre.0.clone(), pre.1.clone(), pre.2.clone()), json!({})));
+          return done(steps, orc, snell_inv, waist_pos, Value::Null);
+        }
         let o = outcome_plain(|| PeriodicPoling::compute_sign(&signal, &pump, &cs0));
         let val = match &o.3 { Some(s) => json!(if *s == Sign::POSITIVE { "Pos" } else { "Neg" }), None => Value::Null };
         steps.push(step("compute_sign", &(o.0.clone(), o.1.clone(), o.2.clone()), json!({"value": val})));
